@@ -37,7 +37,9 @@ FINISH = dict(
          "deactivated / expired / revoked (no hook and no ready POST for any of them), challenge lists with duplicates, one "
          "entry, none, unknown types, different per authorization, dns-01 only for wildcards, an explicit \"wildcard\": "
          "false, a second hook per challenge type (failing, killed, failing but allowed to, succeeding), slow hooks, the account "
-         "key changed by a roll-over before the issuance, all 7 account key types.",
+         "key changed by a roll-over before the issuance, all 7 account key types; pending authorizations whose challenge objects "
+         "are listed \"processing\" / \"valid\" (the configured type, the other types, all, a mix; RFC 8555 7.1.6: answered "
+         "earlier, validation not concluded): the hooks of the configured type run and the ready POST follows all the same.",
 )
 
 KEYTYPES = ["ecdsa-p256", "ecdsa-p384", "ecdsa-p521", "ed25519", "ed448", "rsa2048", "rsa4096"]
@@ -265,6 +267,61 @@ def flow_scenarios_more(ctx, first_idx):
         if j % 6 == 3:
             sc["rollover_from"] = keys[(j + 3) % len(keys)] if not ctx.quick() else ["ecdsa_p256", "ed25519", "ecdsa_p384"][j % 3]
         scs.append(sc)
+    scs += listed_scenarios(ctx, first_idx + n, pool, keys)
+    return scs
+
+
+LISTED = ["configured-processing", "other-processing", "all-processing", "configured-valid", "mixed"]
+
+
+def listed_scenarios(ctx, first_idx, pool, keys):
+    """PENDING authorizations whose challenge objects are not all listed "pending" (RFC 8555 7.1.6: a challenge the
+    client answered earlier and whose validation has not concluded is "processing" while its authorization is still
+    pending: a restart or a time-out between the ready POST and the end of validation, a CA that reuses the pending
+    authorization in the next order, a CA that is retrying).  The statement speaks of the AUTHORIZATION's status only:
+    for a pending one the hooks of the configured type run and the ready POST follows, however its challenges are listed.
+    (drawn after every other scenario: the other families keep their draws)"""
+    rng = ctx.rng
+    n = 10 if ctx.quick() else 300
+    scs = []
+    for j in range(n):
+        mode = LISTED[j % len(LISTED)]
+        ids = []
+        for nm, typ in rng.sample(pool, rng.randint(1, 3)):
+            if typ == "ip":
+                ids.append({"ip": nm, "challenge": rng.choice(["http-01", "tls-alpn-01"])})
+            elif rng.random() < 0.3:      # name and wildcard under different types
+                ids.append({"dns": nm, "challenge": rng.choice(["http-01", "tls-alpn-01"])})
+                ids.append({"dns": "*." + nm, "challenge": "dns-01"})
+            else:
+                ids.append({"dns": nm, "challenge": rng.choice(TYPES)})
+        rng.shuffle(ids)
+        listed = {}
+        for k, x in enumerate(ids):
+            v = (("*." + expected_dns(x["dns"][2:]) if x["dns"].startswith("*.") else expected_dns(x["dns"]))
+                 if "dns" in x else str(ipaddress.ip_address(x["ip"])))
+            cfg = x["challenge"]
+            if mode == "configured-processing":
+                listed[v] = {cfg: "processing"}
+            elif mode == "other-processing":
+                listed[v] = {t: "processing" for t in TYPES if t != cfg}
+            elif mode == "all-processing":
+                listed[v] = {t: "processing" for t in TYPES}
+            elif mode == "configured-valid":
+                listed[v] = {cfg: "valid"}
+            elif k % 2 == 0:      # mixed: every other authorization, a random type each
+                listed[v] = {rng.choice(TYPES): rng.choice(["processing", "valid"]), cfg: "processing"}
+        sc = {"idx": first_idx + j, "ids": ids, "offered": TYPES, "valid": [], "fail_hook": None,
+              "authz_order": rng.choice(["normal", "reversed"]), "challenge_order": rng.choice(["normal", "reversed"]),
+              "key_type": keys[(j + 3) % len(keys)] if not (ctx.quick() and keys[(j + 3) % len(keys)] == "rsa4096") else "ecdsa_p256",
+              "more": True, "listed": mode, "chall_status": listed}
+        if (j // len(LISTED)) % 3 == 1:      # the configured type offered twice (both listed the same way)
+            sc["offered"] = ["http-01", "dns-01", "dns-01", "tls-alpn-01", "http-01", "tls-alpn-01"]
+        if j % 7 == 4:      # a failing hook of some type: nothing is announced for a challenge whose hook failed
+            sc["fail_hook"] = "challenge-" + rng.choice(TYPES)
+        if j % 6 == 5:      # next to an authorization served valid (no hook for THAT one, whatever its challenges say)
+            sc["valid"] = [next(iter(listed))] if len(ids) > 1 and listed else []
+        scs.append(sc)
     return scs
 
 
@@ -276,6 +333,7 @@ def run_flow(sc, root, helper):
     opts["challenge_types_for"] = sc.get("offered_for") or {}
     opts["wildcard_dns_only"] = bool(sc.get("wildcard_dns_only"))
     opts["wildcard_false_explicit"] = bool(sc.get("wildcard_false"))
+    opts["challenge_status_for"] = sc.get("chall_status") or {}
     cert = {"name": "crt", "identifiers": sc["ids"], "key_type": "ecdsa_p256"}
     acct = {"name": "acc1", "contacts": [{"mailto": "a@example.org"}], "key_type": sc["key_type"]}
     # a failing challenge hook exits non-zero or (every other scenario) is killed by a signal: no exit status at all
@@ -436,7 +494,7 @@ def judge_flow(ctx, r):
             v = v2
             ctx.count("flow:other-status-read-as-pending")
     ctx.case({k: sc.get(k) for k in ("ids", "offered", "valid", "fail_hook", "authz_order", "challenge_order", "status", "shape",
-                                     "offered_for", "hook2", "rollover_from", "wildcard_false", "key_type")})
+                                     "offered_for", "hook2", "rollover_from", "wildcard_false", "key_type", "listed", "chall_status")})
     ctx.count("flow:authzs", len(jin))
     ctx.count("flow:served-valid", sum(1 for j in jin if j["served_valid"]))
     ctx.count("flow:hook-failed", sum(1 for j in jin if j["hook_failed"]))
@@ -458,6 +516,13 @@ def judge_flow(ctx, r):
         if sc.get("rollover_from"):
             ctx.count("flow+:key-change-requests", sum(1 for e in reqs if e["rk"] == "keyChange"))
         ctx.count("flow+:dup-matching", sum(1 for j in jin if j["offered"].count(j["configured_type"]) > 1))
+        if sc.get("listed"):
+            ctx.count("flow+:listed=" + sc["listed"])
+            for (aid, orig), j in zip(metas, jin):
+                st = (sc.get("chall_status") or {}).get(orig, {}).get(j["configured_type"])
+                if st and not j["served_valid"]:
+                    ctx.count("flow+:pending-authz-configured-type-listed-%s" % st)
+                    ctx.count("flow+:pending-authz-configured-type-listed-%s:ready-posts" % st, j["ready_posts"])
     if not v["holds"]:
         bad = [i for i, ok in enumerate(v["authz_ok"]) if not ok][0]
         ctx.violation("authorization for %s: %s" % (metas[bad][1], jin[bad]), {"sc": sc, "authz": jin[bad]})
